@@ -82,7 +82,8 @@ def gen(rng, k):
     return {"seed": int(rng.integers(1 << 30)), "radius": radius, "search": search, "shape": shape, "zero": zero, "a": a, "b": b,
             "nframes": nfr, "zero_shift": zs, "partitions": partitions_of(rng, nfr),
             "correlation": ("fast", "fullframe", "sparse")[(k // 3) % 3], "match": ("fast", "affine")[k % 2],
-            "layout": ("mgrid", "list")[(k // 2) % 2], "tolerance": float(rng.choice([1.0, 1.5, 3.0])),
+            "layout": ("mgrid", "list", "mgrid", "pair2", "list", "mgrid")[(k // 2) % 6],
+            "pairs": [[[0, 0], [1, 0]], [[0, 1], [-1, 1]], [[1, 2], [0, -1]], [[0, 0], [0, 1]]][int(rng.integers(4))], "tolerance": float(rng.choice([1.0, 1.5, 3.0])),
             "zero_as": ("ndarray", "tuple")[(k // 4) % 2]}
 
 
@@ -116,6 +117,8 @@ def run_case(kind, q):
             zero_arg = zero0.copy() if q["zero_as"] == "ndarray" else tuple(zero0.tolist())
             a_arg, b_arg = a0.copy(), b0.copy()
             indices = np.mgrid[-3:4, -3:4] if q["layout"] == "mgrid" else np.mgrid[-3:4, -3:4].reshape(2, -1).T.copy()
+            if q["layout"] == "pair2":        # a list of exactly two (i, j) pairs: shape (2, 2), still the list layout
+                indices = np.array(q["pairs"])
             zs = q["zero_shift"]
             corr_name = q["correlation"]
             if corr_name == "sparse":
